@@ -1429,9 +1429,11 @@ impl<'a> Parser<'a> {
             return false;
         }
 
-        // Look ahead to find comma before ParenEnd
+        // Look ahead to find comma before the matching ParenEnd. The scan is not capped at
+        // MAX_LOOKAHEAD: a tuple whose first element is longer than that many tokens is still a tuple.
+        // It stops at the matching ParenEnd or at the end of the token stream.
         let mut depth = 0;
-        for i in 1..MAX_LOOKAHEAD {
+        for i in 1.. {
             match self.peek_ahead(i) {
                 Some(TokenKind::ParenBegin) => depth += 1,
                 Some(TokenKind::ParenEnd) => {
